@@ -160,6 +160,14 @@ def c06_2(ck, prog):
         rank, seen, opt = user
         if ev['ev'] == 'call':
             c = ev['e']
+            if c.get('callee') == '_dbus_hash_table_lookup_uintptr' and is_member(c['args'][0], None, 'BusPolicy'):
+                tbl = c['args'][0]['field']
+                for k, v in ctx.atoms().items():
+                    if k[0] == 'entries-le0' and k[1] != tbl and v is False and \
+                            not any(k2[0] == 'entries-le0' and k2[1] == tbl for k2 in ctx.atoms()):
+                        ctx.report('%s is consulted only under a guard on %s: the %s context is skipped '
+                                   'whenever the other table is empty' % (tbl, k[1], tbl), c['line'],
+                                   key=('guard', tbl))
             if c.get('callee') == 'add_list_to_client':
                 s = src_of(c['args'][0], ctx)
                 nsites.add(c['line'])
@@ -189,8 +197,24 @@ def c06_2(ck, prog):
             if not opt:
                 ctx.report('a client policy is returned without bus_client_policy_optimize', ev['line'],
                            key=('noopt',))
+    def akey(atom, resolve):
+        # _dbus_hash_table_get_n_entries (policy->T) > 0   ==   not (n <= 0)
+        if atom[0] == 'cmp' and atom[1] == '<=' and is_int(atom[3], 0):
+            c = resolve(atom[2])
+            if c is not None and c.get('callee') == '_dbus_hash_table_get_n_entries' \
+                    and is_member(c['args'][0], None, 'BusPolicy'):
+                return ('entries-le0', c['args'][0]['field'])
+        return None
+
+    class Ex(Explorer):
+        pass
+    # normalise: atom (n <= 0) False  <=>  entries > 0
+    def akey_wrap(atom, resolve):
+        k = akey(atom, resolve)
+        return k
     ex = Explorer(fn, init=(0, frozenset(), False), on_event=on_event, on_exit=on_exit,
-                  track='auto', calls={'_dbus_hash_table_lookup_uintptr'}).run()
+                  track='auto', calls={'_dbus_hash_table_lookup_uintptr', '_dbus_hash_table_get_n_entries'},
+                  atom_key=akey_wrap).run()
     if len(nsites) < 5:
         raise AnalysisBroken('only %d add_list_to_client sites in bus_policy_create_client_policy' % len(nsites))
     if ex.reports:
@@ -648,6 +672,110 @@ def c06_3b(ck, prog):
     # (prefix is only meaningful with a name; parser never sets prefix without one)
 
 
+ATTR_GETTERS = {'path': 'dbus_message_get_path', 'interface': 'dbus_message_get_interface',
+                'member': 'dbus_message_get_member', 'error': 'dbus_message_get_error_name'}
+
+
+def attr_skip_table(fn, kind, attr):
+    """skip/apply decision of one string attribute test as a function of
+    (rule attr set, message has the field, values equal, rule.allow)."""
+    start = None
+    for bid, blk in fn.blocks.items():
+        t = blk.get('term')
+        if t and t.get('cond') is not None and len(blk['succs']) == 2:
+            c = t['cond']
+            if c.get('k') == 'bin' and c['op'] in ('!=', '==') and pol_field(c['l']) == (kind, attr) and is_int(c['r'], 0):
+                start = bid
+    if start is None:
+        raise AnalysisBroken('%s: test of %s.%s not found' % (fn.name, kind, attr))
+    heads = {dst for (src, dst) in back_edges(fn)}
+    getter = ATTR_GETTERS[attr]
+    table = {}
+    for rset, has, equal, allow in itertools.product((0, 1), repeat=4):
+        env = {}
+
+        def val(e):
+            if pol_field(e) == (kind, attr):
+                return 1 if rset else 0
+            if is_call(e, getter):
+                return 1 if has else 0
+            if is_call(e, 'strcmp'):
+                return 0 if equal else 1
+            if is_member(e, 'allow', 'BusPolicyRule'):
+                return allow
+            if is_ref(e) and e.get('id') in env:
+                return env[e['id']]
+            return None
+        b = start
+        verdict = None
+        for _ in range(60):
+            blk = fn.blocks[b]
+            for ev in blk['events']:
+                for lhs, how, rhs in written_lvalues(ev):
+                    if is_ref(lhs) and lhs.get('kind') == 'local' and how in ('=', 'decl') and rhs is not None:
+                        v = eval_cond(rhs, val)
+                        if v is not None:
+                            env[lhs['id']] = v
+            t = blk.get('term')
+            if b in heads:
+                verdict = 'skip'
+                break
+            if t and t.get('cond') is not None and len(blk['succs']) == 2:
+                others = {pol_field(x) for x in walk(t['cond'])} - {None, (kind, attr)}
+                if others and b != start:
+                    verdict = 'apply'
+                    break
+                v = eval_cond(t['cond'], val)
+                if v is None:
+                    raise AnalysisBroken('%s: cannot evaluate %s in the %s test' % (fn.name, estr(t['cond']), attr))
+                b = blk['succs'][0] if v else blk['succs'][1]
+            elif len(blk['succs']) == 1:
+                b = blk['succs'][0]
+            else:
+                raise AnalysisBroken('%s: unexpected block shape in the %s test' % (fn.name, attr))
+        if verdict is None:
+            raise AnalysisBroken('%s: %s test walk did not terminate' % (fn.name, attr))
+        table[(rset, has, equal, allow)] = verdict
+    return table
+
+
+def spec_attr(attr, rset, has, equal, allow):
+    """dbus-daemon(1): a rule with send_/receive_<attr> applies to messages whose <attr> equals the
+    value.  A message that lacks an optional field: for path, member and error name the rule still
+    applies; for interface an <allow> rule does not apply (so that it cannot allow interface-less
+    calls) while a <deny> rule does."""
+    if not rset:
+        return 'apply'
+    if has:
+        return 'apply' if equal else 'skip'
+    if attr == 'interface':
+        return 'skip' if allow else 'apply'
+    return 'apply'
+
+
+def c06_6b(ck, prog):
+    r = ck.rule('C06.6b', 'the path / interface / member / error tests of check_can_send and check_can_receive '
+                'are the same boolean functions and equal the documented semantics (16 assignments each)', 'DEC',
+                breaks='an <allow send_interface=...> rule admits interface-less calls (CVE-2008-0595 shape), or the '
+                       'two evaluators disagree', floor=96)
+    names = ('rule_attr_set', 'message_has_field', 'equal', 'rule.allow')
+    for attr in ('path', 'interface', 'member', 'error'):
+        for side in ('send', 'receive'):
+            fn = prog.fn(*EVALS[side])
+            t = attr_skip_table(fn, side, attr)
+            for a, got in sorted(t.items()):
+                if a[1] == 0 and a[2] == 1:
+                    continue     # "equal" is meaningless when the message lacks the field
+                want = spec_attr(attr, *a)
+                key = '%s.%s:%s' % (side, attr, ''.join(map(str, a)))
+                if got == want:
+                    r.ok(key, dict(zip(names, a), verdict=got))
+                else:
+                    r.violation(key, fn.name, fn.file, fn.line,
+                                '%s_%s: for %s the evaluator decides "%s", documented semantics say "%s"' % (
+                                    side, attr, dict(zip(names, a)), got, want))
+
+
 def spec_reply(is_reply, req, allow, rreq, reav):
     """dbus-daemon(1): send/receive_requested_reply.  For <allow>, requested_reply="true" means the
     rule only allows requested replies ("false": any reply); an <allow> with eavesdrop="true" also
@@ -705,3 +833,4 @@ def run(ck):
         c06_4(ck, prog)
         c06_5(ck, prog)
         c06_6(ck, prog)
+        c06_6b(ck, prog)
